@@ -25,7 +25,8 @@ RN_RULES = [
 
 UNIT = dict(
     name="read_next",
-    props=["C02", "C15", "C09", "C01"],
+    props=["C02", "C15", "C09", "C01", "C12"],
+    implicit_props=["C02", "C15", "C09", "C01"],  # the properties every obligation of the unit counts for; the others only through labelled clauses
     features=["allocator_api"],
     uses=["std::collections::HashMap", "vstd::std_specs::hash::*"],
     prelude=["core_types.rs", "str_ext.rs", "hashmap_ext.rs", "engine.rs"],
